@@ -105,6 +105,13 @@ func (g *pgen) enumSettings(c *ConvSpec) {
 	}
 	if u := unknown(nil); u != "" {
 		c.Lines = append(c.Lines, "enum:unknown "+u)
+		if u == "@error" { // methods that can hand the error on
+			for _, m := range c.Methods {
+				if !m.Update && g.r.Intn(100) < 70 {
+					m.Err = true
+				}
+			}
+		}
 	}
 	if g.r.Intn(15) == 0 {
 		c.Lines = append(c.Lines, "enum no")
@@ -127,7 +134,7 @@ func (g *pgen) enumSettings(c *ConvSpec) {
 				m.Lines = append(m.Lines, "enum:unknown "+u)
 			}
 		}
-		if g.r.Intn(100) < 15 {
+		if g.r.Intn(100) < 35 {
 			m.Err = true
 		}
 		switch g.r.Intn(4) {
